@@ -4,7 +4,8 @@ any pruning or building), the complete decision table of the graph-route step fu
 table of the graph-route node builder (arrival sides, flipped pushes, complemented terminal extensions), payload fold in
 lockstep, the order prune(available) -> build -> finish -> prune(all) -> return; and the pruning itself: find_link's table
 (which index, which strand, under which strandedness), get_valid_exts / fix_exts keep an extension exactly when it resolves to
-an available node, sequence_of_path spells merged nodes with a K-1 overlap."""
+an available node, sequence_of_path spells merged nodes with a K-1 overlap.
+Added later: graph chain table, index-builder tables, is_compressed soundness, the k-mer route's entry points, packed-set add lemmas."""
 from .. import lemmas, dt_strings, dt_compress, dt_tables, dt_graph
 from . import common
 
